@@ -7,11 +7,15 @@ import apigen, genrun, libhost
 # generator: APIs per the quantifier (several services, keyword-named and internal methods,
 # reserved-word fields) x transports in {grpc, rest, grpc+rest}
 
+# (a package without a namespace component, e.g. `solo.v2`, crashes setup.py.j2 — `namespace_packages|first` on an
+#  empty tuple — before any artefact exists: C01/C11's subject, excluded here)
 PACKAGES = [("acme.lib.v1", "acme/lib/v1"), ("google.cloud.bookstore.v1beta1", "google/cloud/bookstore/v1beta1"),
-            ("solo.v2", "solo/v2"), ("acme.inventory.v1p1beta1", "acme/inventory/v1p1beta1")]
+            ("acme.lib", "acme/lib"), ("acme.inventory.v1p1beta1", "acme/inventory/v1p1beta1")]
 TRANSPORTS = ["grpc", "rest", "grpc+rest", "rest+grpc"]
-SERVICE_NAMES = ["Library", "Archive", "Catalog", "Import", "Shelves", "BookStore", "IAMAdmin", "V2Index", "Class",
-                 "Publisher", "Lambda", "Lending"]
+# (a service whose snake_case name is a Python keyword — `Import`, `Class`, `Lambda` — makes the package
+#  unimportable: `from .services.import import ImportClient`; C12/C01's subject, excluded here)
+SERVICE_NAMES = ["Library", "Archive", "Catalog", "Importer", "Shelves", "BookStore", "IAMAdmin", "V2Index", "Classes",
+                 "Publisher", "AsyncJobs", "Lending", "Base"]
 KEYWORD_RPCS = ["Import", "Class", "Return", "Global", "From", "In", "Is", "Not", "Or", "And", "As", "Try", "With",
                 "Yield", "Pass", "Raise", "Lambda", "For", "If", "Else", "Del", "Def", "While", "Assert", "Async",
                 "Await", "Break", "Continue", "Elif", "Except", "Finally", "Nonlocal", "import", "IMPORT", "CLASS",
@@ -107,6 +111,13 @@ def gen_spec(r, idx, transport=None, case_clash=None, shared_name=None):
         allm[0]["internal"] = False      # selective generation needs at least one listed method
     if "rest" not in spec["transport"].split("+") and r.maybe(0.3):
         r.pick(allm)["cs"] = True        # client streaming: gRPC only
+    if spec["transport"] == "rest" and r.maybe(0.4) and not any(s["name"] in ("Addresses", "RegionOperations") for s in spec["services"]) \
+            and not any(nocase(m["name"]) in ("get", "insert") for m in allm):
+        # extended operations (compute style) are REST-only in practice; with gRPC see the corpus probe
+        msgs, svcs = extop_parts()
+        spec["extop"] = True
+        spec["messages"] += msgs
+        spec["services"] += svcs
     return spec
 
 
@@ -137,6 +148,14 @@ def corpus_specs():
     s["services"] = [{"name": "Foo", "methods": [{"name": "Ping", "input": "google.protobuf.Empty", "internal": False, "ss": False, "cs": False, "lro": False}]},
                      {"name": "FooAsync", "methods": [{"name": "Pong", "input": "google.protobuf.Empty", "internal": False, "ss": False, "cs": False, "lro": False}]}]
     out.append(("class_name_clash", s))
+    # (3b) extended operation with the gRPC transports: the asyncio client only has `insert_unary`
+    for tr in ("grpc+rest", "rest"):
+        s = base(tr)
+        msgs, svcs = extop_parts()
+        s["extop"] = True
+        s["messages"] = msgs
+        s["services"] = [{"name": "Library", "methods": [{"name": "Ping", "input": "google.protobuf.Empty", "internal": False, "ss": False, "cs": False, "lro": False}]}] + svcs
+        out.append(("extended_operation_" + tr.replace("+", "_"), s))
     # (4) keyword-named + internal methods, reserved-word fields, all three kinds (the shape of Props.C15.apiEx)
     s = base("grpc+rest")
     s["messages"] = [{"name": "GetBookRequest", "fields": [
@@ -158,16 +177,64 @@ def corpus_specs():
 # ---------------------------------------------------------------------------------------------
 # spec -> descriptors / request / model input
 
+def _fd(name, required=False, type="string"):
+    return dict(name=name, type=type, required=required, repeated=False, optional=False, oneof=None, map=False)
+
+
+def extop_parts():
+    """the compute-style extended-operation shape of tests/fragments/test_compute_operation.proto, as spec entries"""
+    msgs = [{"name": "GetRegionOperationRequest", "builtin": True,
+             "fields": [_fd("operation", True), _fd("project", True), _fd("region", True)]},
+            {"name": "InsertAddressRequest", "builtin": True,
+             "fields": [_fd("address_resource", False, "message"), _fd("project", True), _fd("region")]}]
+    svcs = [{"name": "RegionOperations", "builtin": True, "methods": [
+                {"name": "Get", "input": "GetRegionOperationRequest", "internal": False, "ss": False, "cs": False, "lro": False, "ext": "polling"}]},
+            {"name": "Addresses", "builtin": True, "methods": [
+                {"name": "Insert", "input": "InsertAddressRequest", "internal": False, "ss": False, "cs": False, "lro": False, "ext": "op"}]}]
+    return msgs, svcs
+
+
+def add_extop(f):
+    from google.cloud import extended_operations_pb2 as ex
+    f.dep("google/cloud/extended_operations.proto")
+    op = f.msg("Operation")
+    st = op.nested_enum("Status", ["DONE"])
+    op.field("name", optional=True).options.Extensions[ex.operation_field] = ex.NAME
+    op.field("http_error_message", optional=True).options.Extensions[ex.operation_field] = ex.ERROR_MESSAGE
+    op.field("http_error_status_code", "int32", optional=True).options.Extensions[ex.operation_field] = ex.ERROR_CODE
+    op.field("status", "enum", type_name=st, optional=True).options.Extensions[ex.operation_field] = ex.STATUS
+    g = f.msg("GetRegionOperationRequest")
+    g.field("operation", required=True).options.Extensions[ex.operation_response_field] = "name"
+    g.field("project", required=True); g.field("region", required=True)
+    addr = f.msg("Address"); addr.field("address", optional=True)
+    ins = f.msg("InsertAddressRequest")
+    ins.field("address_resource", "message", type_name=addr); ins.field("project", required=True); ins.field("region")
+    ro = f.service("RegionOperations")
+    m = ro.method("Get", g, op, http=("get", "/compute/v1/projects/{project}/regions/{region}/operations/{operation}"),
+                  sigs=["project,region,operation"])
+    m.options.Extensions[ex.operation_polling_method] = True
+    ad = f.service("Addresses")
+    m = ad.method("Insert", ins, op, http=("post", "/compute/v1/projects/{project}/regions/{region}/addresses"),
+                  body="address_resource", sigs=["project,region,address_resource"])
+    m.options.Extensions[ex.operation_service] = "RegionOperations"
+
+
 def build_files(spec):
     pkg, pdir = spec["package"], spec["dir"]
     f = apigen.File(f"{pdir}/lib.proto", pkg)
     files = [f]
+    if spec.get("extop"):
+        add_extop(f)
     color = f.enum("Color", ["COLOR_UNSPECIFIED", "RED", "BLUE"])
     book = f.msg("Book")
     book.field("name"); book.field("class"); book.field("pages", "int32")
     meta = f.msg("OpMeta"); meta.field("progress", "int32")
     for m in spec["messages"]:
+        if m.get("builtin"):
+            continue
         mm = f.msg(m["name"])
+        for on in sorted({fd["oneof"] for fd in m["fields"] if fd.get("oneof")}):
+            mm.pb.oneof_decl.add(name=on)        # real oneofs precede the synthetic ones of proto3 optional
         for fd in m["fields"]:
             kw = dict(required=fd["required"])
             if fd.get("map"):
@@ -184,6 +251,8 @@ def build_files(spec):
                      optional=fd.get("optional", False), **kw)
     f2 = None
     for k, s in enumerate(spec["services"]):
+        if s.get("builtin"):
+            continue
         target = f
         if spec.get("two_files") and k % 2 == 1:
             if f2 is None:
@@ -252,7 +321,7 @@ def model_input(spec, naming):
                     "versioned_module": naming.versioned_module_name,
                     "services": [{"name": s["name"], "methods": [
                         {"name": m["name"], "internal": bool(m["internal"]), "proto_plus": not m["input"].startswith("google."),
-                         "ext_op": False, "fields": [[n, rq] for n, rq in input_fields(spec, m)]}
+                         "ext_op": m.get("ext") == "op", "fields": [[n, rq] for n, rq in input_fields(spec, m)]}
                         for m in s["methods"]]} for s in spec["services"]]}}
 
 
@@ -406,7 +475,7 @@ def run_spec(ctx, spec, label, probe=None):
             fails.append(("services-listed", f"services listed {sorted(md.get('services', {}))} expected {sorted(want_services)}"))
         dirs, regs, fields_of = {}, {}, {}
         model_class_dir = {}
-        sig_ok = {}
+        sig_ok, coro = {}, {}
         for p, o in zip(plan, out[2:]):
             what = p[0]
             if what == "dir":
@@ -416,6 +485,8 @@ def run_spec(ctx, spec, label, probe=None):
             elif what == "signature":
                 params = [q[0] for q in o.get("params", [])]
                 sig_ok[(p[1], p[2], p[4], p[5])] = len(params) >= 2 and params[0] == "self" and params[1] in ("request", "requests")
+                if "params" in o:
+                    coro[(p[1], p[2])] = coro.get((p[1], p[2]), []) + [(p[4], bool(o.get("coroutine")))]
             elif what == "fields":
                 fields_of[p[1]] = list(o["value"].keys()) if isinstance(o.get("value"), dict) else None
             elif what == "model-class":
@@ -435,12 +506,16 @@ def run_spec(ctx, spec, label, probe=None):
                     continue
                 reg = regs.get((s["name"], kind), {})
                 if kind in KIND_TRANSPORT:
+                    # the class serves the kind: the synchronous client registers the transport label; the asyncio
+                    # client's unary RPC methods are coroutine functions (and the synchronous client's are not)
+                    unary = {m["name"] for m in s["methods"] if not m.get("ss")}
+                    flags = [c for rp, c in coro.get((s["name"], kind), []) if rp in unary]
                     if kind == "grpc-async":
-                        okk = str(reg.get("default", "")).endswith("GrpcAsyncIOTransport")
+                        okk = all(flags)
                     else:
-                        okk = KIND_TRANSPORT[kind] in (reg.get("keys") or [])
+                        okk = KIND_TRANSPORT[kind] in (reg.get("keys") or []) and not any(flags)
                     if not okk:
-                        fails.append((f"client-kind-class:{kind}", f"{s['name']}/{kind}: class {client} does not serve that kind ({reg})"))
+                        fails.append((f"client-kind-class:{kind}", f"{s['name']}/{kind}: class {client} does not serve that kind (registry {reg.get('keys')}, coroutine flags {flags})"))
                 rpcs = cdesc.get("rpcs", {})
                 want_rpcs = {m["name"] for m in s["methods"]}
                 if set(rpcs) != want_rpcs:
@@ -479,24 +554,34 @@ def run_spec(ctx, spec, label, probe=None):
                     c = [e for e in emitted if e in (n, n + "_")]
                     py.append(c[0] if len(c) == 1 else n)
                 expected.append([p for p, (_, rq) in zip(py, fl) if rq] + [p for p, (_, rq) in zip(py, fl) if not rq])
-            if len(cands) != 1 and not (len(cands) > 1 and name in clash):
-                key = "fixup-missing-rpc:case-insensitive-unique" if name in clash else "fixup-missing-rpc"
-                fails.append((key, f"METHOD_TO_PARAMS has no entry for RPC {name!r} (keys {sorted(tdict)[:12]})"))
+            if name in clash:
+                # RPC names equal up to letter case: each needs its own key; which key is whose is not decided here
+                group = {n for n in all_names if n.lower() == name.lower()}
+                gk = {k for n in group for k in tdict if nocase(k) == nocase(n)}
+                if len(gk) < len(group) and name == min(group):
+                    fails.append(("fixup-missing-rpc:case-insensitive-unique",
+                                  f"METHOD_TO_PARAMS has {len(gk)} entr{'y' if len(gk) == 1 else 'ies'} {sorted(gk)} for the {len(group)} RPC names {sorted(group)}"))
                 continue
-            got = tdict[cands[0]] if len(cands) == 1 else None
+            if len(cands) != 1:
+                fails.append(("fixup-missing-rpc", f"METHOD_TO_PARAMS has {len(cands)} entries for RPC {name!r} (keys {sorted(tdict)[:12]})"))
+                continue
+            got = tdict[cands[0]]
             if len({json.dumps(e) for e in expected}) > 1:
                 ctx.assume("RPC names shared by several services name one request shape (the fix-up table is keyed by RPC name alone; DESIGN 7.15 forced hypothesis)")
                 if got is not None and got not in expected:
                     fails.append(("fixup-params", f"{name}: table {got}, none of the requests' orders {expected}"))
             elif got is not None and expected and got != expected[0]:
                 fails.append(("fixup-params", f"{name}: table {got}, required-first declaration order {expected[0]}"))
-        if len(tdict) > len({nocase(n) for n in by_rpc_name}):
-            fails.append(("fixup-extra-entry", f"keys {sorted(tdict)} for RPCs {sorted(by_rpc_name)}"))
+        extra = [k for k in tdict if not any(nocase(k) == nocase(n) for n in by_rpc_name)]
+        if extra:
+            fails.append(("fixup-extra-entry", f"keys {sorted(extra)} belong to no RPC of {sorted(by_rpc_name)}"))
         for key, what in fails:
             if probe:
                 ctx.count("excluded_point_failures", f"{probe}:{key}")
-                if probe in PROBE_KEYS:
-                    ctx.fail(PROBE_KEYS[probe] + ":" + key.split(":")[0], f"[{label}] {what}", payload)
+                if probe in PROBE_KEYS and key in PROBE_KEYS[probe][1]:
+                    ctx.fail(PROBE_KEYS[probe][0], f"[{label}] {what}", dict(payload, probe=probe))
+                elif probe in PROBE_KEYS:
+                    ctx.fail(key, f"[{label}] {what}", dict(payload, probe=probe))
             else:
                 ctx.fail(key, f"[{label}] {what}", payload)
         # ------------------------------------------------------------------ T3: model vs emitted artefacts
@@ -518,7 +603,8 @@ def run_spec(ctx, spec, label, probe=None):
 
 
 # excluded points that lie inside the property's own quantifier: failures are reported under these key prefixes
-PROBE_KEYS = {"class_name_clash": "class-name-clash"}
+PROBE_KEYS = {"class_name_clash": ("class-name-clash", {"method-missing:grpc-async", "client-kind-class:grpc-async"}),
+              "extended_operation_grpc_rest": ("extended-operation-async-method-missing", {"method-missing:grpc-async"})}
 
 
 def snake_t2(ctx, r, n):
@@ -573,7 +659,7 @@ def _run(ctx):
     ctx.assume("one target proto package without sub-packages: service names are pairwise distinct (WF)")
     ctx.assume("RPC names are pairwise distinct up to case/underscores inside a service's snake_case image (two RPCs mapping to one python method name are C12's subject)")
     ctx.assume("no request message has both `x` and `x_` (python-level field names pairwise distinct)")
-    ctx.assume("extended-operation RPCs (google.cloud.operation_service) are not generated: with gRPC transports the asyncio client only has `<m>_unary` (Props.C15.names_exist_extended_operation_async_counterexample; model only)")
+    ctx.assume("extended-operation RPCs (google.cloud.operation_service) are generated with transport=rest only; with gRPC transports the asyncio client only has `<m>_unary` (Props.C15.names_exist_extended_operation_async_counterexample; corpus probe, known finding)")
     r = ctx.rng("apis")
     # corpus first
     cdir = os.path.join(os.path.dirname(os.path.dirname(os.path.dirname(os.path.abspath(__file__)))), "corpus", "C15")
@@ -585,7 +671,7 @@ def _run(ctx):
                     blob = json.load(fh)
                 builtin[fn[:-5]] = blob.get("payload", blob)["spec"]
     for name, spec in sorted(builtin.items()):
-        run_spec(ctx, copy.deepcopy(spec), f"corpus:{name}", probe=name if name in ("class_name_clash",) else None)
+        run_spec(ctx, copy.deepcopy(spec), f"corpus:{name}", probe=name if name in PROBE_KEYS else None)
     snake_t2(ctx, ctx.rng("snake"), ctx.n(200, 3000))
     for i in range(ctx.n(18, 420)):
         spec = gen_spec(r, i)
